@@ -69,7 +69,19 @@ def frames_of(w, kind):
         return [(CLAIM, SymBytes(_le_bytes(nm, 8)[::-1]))]
     if kind == "unknown_pgn":
         return [(99999, bytes(8))]
+    if kind in ("fm_furuno", "fm_simnet"):
+        return [(P_FMULTI, bytes(fr[::-1])) for fr in fm_frames(kind)]
     raise ValueError(kind)
+
+
+P_FMULTI = 130820         # multi-definition fast packet: simnetReprogramStatus | furunoUnknown130820 | fusion... (7 bytes -> 2 frames)
+
+
+def fm_frames(kind):
+    """the two CAN frames (8 data bytes each, wire order) of a 7-byte PGN 130820 message, sequence counter 0 for both makers"""
+    head = [0x3F, 0x9F] if kind == "fm_furuno" else [0x41, 0x9F]       # manufacturer 1855 Furuno / 1857 Simrad, industry 4
+    pay = head + [0x10, 0x00, 0x00, 0x00, 0x00]
+    return [[0x00, 7] + pay[:6], [0x01] + pay[6:] + [0xFF] * 6]
 
 
 EVENTS = [("single", "a"), ("single", "b"), ("fast", "a"), ("multi_furuno", "a"), ("multi_other", "b"), ("claim1", "a"), ("claim2", "a"),
